@@ -20,6 +20,14 @@ package tr
 // Indexing on the left of an assignment is bounds-checked like Go does: out of range evaluates
 // to the function's Panic term.  time.Time is Z (Before/After/Equal are <, >, =), float64
 // fields are carried as Z (never computed with), sized integer arithmetic is wrapped.
+// Extensions used by cmd/polygoncode: strings (== is String.eqb), `else` / `else if`, calls of
+// configured functions and methods (LCfg.Calls), package-level variables (LCfg.Globals),
+// package-level maps read as functions (LCfg.Maps), map writes m[k] = v (LCfg.MapSet), `return`
+// inside a range loop (the loop becomes Base.GenLoop.loop_fold over lstep: LNext state | LRet
+// result) and expressions that may panic: an index read X[I] is  get_at X I : option _ , a
+// configured call may be marked Partial; operators are lifted (olift2, short-circuit oand / oor),
+// and a statement that evaluates such an expression matches on it, None giving the function's
+// Panic term.  Go `int` arithmetic (lengths, indices) is NOT wrapped; sized ints are.
 // <atom>s are expressions the translator must not look into (interface calls, error values):
 // they are matched by their source text and replaced by a configured Coq term.
 // Anything outside the grammar is an error: the definition is then missing from the generated
@@ -49,6 +57,16 @@ type StructMap struct {
 type LCfg struct {
 	Structs map[string]*StructMap // by Go type name (without package)
 	Ctors   map[string]string     // composite literal type name -> Coq constructor (fields in source order)
+	Globals map[string]string     // package-level identifier -> Coq term
+	Calls   map[string]*CallMap   // "Type.Method" or "pkg.Func" -> Coq function (receiver first)
+	Maps    map[string]string     // package-level map variable -> Coq function applied to the key
+	MapSet  string                // Coq function for m[k] = v :  MapSet m k v
+}
+
+// CallMap describes a call the translator may emit.
+type CallMap struct {
+	Coq     string
+	Partial bool // the Coq function returns an option (None = panic)
 }
 
 // LFunc describes one function to translate.
@@ -63,6 +81,8 @@ type LFunc struct {
 	Returns    map[string]string // source text of the result list ("nil, err") -> Coq term; "" key unused
 	Result     string            // Coq result type
 	Panic      string            // Coq term for an index out of range
+	Partial    bool              // the function may panic: results are wrapped with RetWrap, loops use loop_fold
+	RetWrap    string            // format applied to a returned value, e.g. "(Some %s)"; default "%s"
 }
 
 // LT is the translator state for one function.
@@ -123,6 +143,8 @@ func (t *LT) coqType(ty types.Type) (string, error) {
 			return "Z", nil
 		case u.Info()&types.IsBoolean != 0:
 			return "bool", nil
+		case u.Info()&types.IsString != 0:
+			return "string", nil
 		}
 	case *types.Slice:
 		e, err := t.coqType(u.Elem())
@@ -176,6 +198,9 @@ func (t *LT) wrapArith(e ast.Expr, v string) string {
 	if !ok || b.Info()&types.IsInteger == 0 || b.Info()&types.IsUntyped != 0 {
 		return v
 	}
+	if b.Kind() == types.Int {
+		return v // lengths, indices, versions: far below 2^63 (see the header)
+	}
 	switch w, s := intWidth(tv.Type), intSigned(tv.Type); {
 	case w == 8 && s:
 		return "(wrap8 " + v + ")"
@@ -212,6 +237,8 @@ func (t *LT) binop(e ast.Expr, op token.Token, x ast.Expr, a, b string) (string,
 		tx := t.p.Info.Types[x].Type
 		if bt, ok := tx.Underlying().(*types.Basic); ok && bt.Info()&types.IsBoolean != 0 {
 			eq = fmt.Sprintf("(Bool.eqb %s %s)", a, b)
+		} else if isStringType(tx) {
+			eq = fmt.Sprintf("(String.eqb %s %s)", a, b)
 		} else if isIntType(tx) {
 			eq = fmt.Sprintf("(Z.eqb %s %s)", a, b)
 		} else {
@@ -225,140 +252,246 @@ func (t *LT) binop(e ast.Expr, op token.Token, x ast.Expr, a, b string) (string,
 	return "", t.errf(e, "unsupported operator %s", op)
 }
 
+// expr translates an expression that cannot panic.
 func (t *LT) expr(e ast.Expr) (string, error) {
+	v, partial, err := t.exprP(e)
+	if err != nil {
+		return "", err
+	}
+	if partial {
+		return "", t.errf(e, "expression may panic where a total one is required: %s", t.src(e))
+	}
+	return v, nil
+}
+
+func some(v string, partial bool) string {
+	if partial {
+		return v
+	}
+	return "(Some " + v + ")"
+}
+
+// exprP translates an expression; partial = the Coq term has type option _ (None = Go panic).
+func (t *LT) exprP(e ast.Expr) (string, bool, error) {
 	if a, ok := t.fn.Atoms[t.src(e)]; ok {
-		return a, nil
+		return a, false, nil
 	}
 	switch x := e.(type) {
 	case *ast.ParenExpr:
-		return t.expr(x.X)
+		return t.exprP(x.X)
 	case *ast.Ident:
 		switch x.Name {
 		case "true", "false":
-			return x.Name, nil
+			return x.Name, false, nil
 		}
 		if v, ok := t.env[x.Name]; ok {
-			return v, nil
+			return v, false, nil
 		}
-		return "", t.errf(e, "unknown identifier %s", x.Name)
+		if g, ok := t.cfg.Globals[x.Name]; ok {
+			if obj := t.p.Info.Uses[x]; obj != nil && obj.Parent() == t.p.Types.Scope() {
+				return g, false, nil
+			}
+		}
+		return "", false, t.errf(e, "unknown identifier %s", x.Name)
 	case *ast.BasicLit:
 		tv := t.p.Info.Types[e]
 		if tv.Value != nil && tv.Value.Kind() == constant.Int {
-			return CoqZ(tv.Value), nil
+			return CoqZ(tv.Value), false, nil
 		}
-		return "", t.errf(e, "unsupported literal")
+		if tv.Value != nil && tv.Value.Kind() == constant.String {
+			return CoqString(constant.StringVal(tv.Value)), false, nil
+		}
+		return "", false, t.errf(e, "unsupported literal")
 	case *ast.UnaryExpr:
 		switch x.Op {
 		case token.SUB:
 			if tv := t.p.Info.Types[e]; tv.Value != nil && tv.Value.Kind() == constant.Int {
-				return CoqZ(tv.Value), nil
+				return CoqZ(tv.Value), false, nil
 			}
-			v, err := t.expr(x.X)
+			v, p, err := t.exprP(x.X)
 			if err != nil {
-				return "", err
+				return "", false, err
 			}
-			return t.wrapArith(e, "(Z.opp "+v+")"), nil
+			if p {
+				return "(option_map (fun x => " + t.wrapArith(e, "(Z.opp x)") + ") " + v + ")", true, nil
+			}
+			return t.wrapArith(e, "(Z.opp "+v+")"), false, nil
 		case token.NOT:
-			v, err := t.expr(x.X)
+			v, p, err := t.exprP(x.X)
 			if err != nil {
-				return "", err
+				return "", false, err
 			}
-			return "(negb " + v + ")", nil
+			if p {
+				return "(option_map negb " + v + ")", true, nil
+			}
+			return "(negb " + v + ")", false, nil
 		case token.AND:
 			if cl, ok := x.X.(*ast.CompositeLit); ok {
-				return t.composite(cl)
+				v, err := t.composite(cl)
+				return v, false, err
 			}
 		}
-		return "", t.errf(e, "unsupported unary %s", x.Op)
+		return "", false, t.errf(e, "unsupported unary %s", x.Op)
 	case *ast.CompositeLit:
-		return t.composite(x)
+		v, err := t.composite(x)
+		return v, false, err
 	case *ast.BinaryExpr:
-		a, err := t.expr(x.X)
+		a, pa, err := t.exprP(x.X)
 		if err != nil {
-			return "", err
+			return "", false, err
 		}
-		b, err := t.expr(x.Y)
+		b, pb, err := t.exprP(x.Y)
 		if err != nil {
-			return "", err
+			return "", false, err
 		}
-		return t.binop(e, x.Op, x.X, a, b)
+		if !pa && !pb {
+			v, err := t.binop(e, x.Op, x.X, a, b)
+			return v, false, err
+		}
+		switch x.Op {
+		case token.LAND:
+			return fmt.Sprintf("(oand %s (fun _ => %s))", some(a, pa), some(b, pb)), true, nil
+		case token.LOR:
+			return fmt.Sprintf("(oor %s (fun _ => %s))", some(a, pa), some(b, pb)), true, nil
+		}
+		op, err := t.binop(e, x.Op, x.X, "x", "y")
+		if err != nil {
+			return "", false, err
+		}
+		return fmt.Sprintf("(olift2 (fun x y => %s) %s %s)", op, some(a, pa), some(b, pb)), true, nil
 	case *ast.SelectorExpr:
 		if id, ok := x.X.(*ast.Ident); ok && id.Name == t.recv && t.recv != "" {
 			for _, f := range t.fn.RecvFields {
 				if f == x.Sel.Name {
-					return "w_" + f, nil
+					return "w_" + f, false, nil
 				}
 			}
 		}
 		sm := t.structOf(x.X)
 		if sm == nil {
-			return "", t.errf(e, "field of an unmapped type")
+			return "", false, t.errf(e, "field of an unmapped type")
 		}
 		pj := sm.proj(x.Sel.Name)
 		if pj == "" {
-			return "", t.errf(e, "field %s is not modelled", x.Sel.Name)
+			return "", false, t.errf(e, "field %s is not modelled", x.Sel.Name)
 		}
-		v, err := t.expr(x.X)
+		v, p, err := t.exprP(x.X)
 		if err != nil {
-			return "", err
+			return "", false, err
 		}
-		return "(" + pj + " " + v + ")", nil
+		if p {
+			return "(option_map " + pj + " " + v + ")", true, nil
+		}
+		return "(" + pj + " " + v + ")", false, nil
 	case *ast.IndexExpr:
 		if t.fn.ElemIndex {
 			if r, ok := x.X.(*ast.Ident); ok && r.Name == t.recv {
 				if i, ok := x.Index.(*ast.Ident); ok {
-					return "a_" + i.Name, nil
+					return "a_" + i.Name, false, nil
 				}
 			}
 		}
-		return "", t.errf(e, "unsupported index expression")
+		// a package-level map read as a function
+		if id, ok := x.X.(*ast.Ident); ok {
+			if m, ok := t.cfg.Maps[id.Name]; ok {
+				if _, isMap := t.p.Info.Types[x.X].Type.Underlying().(*types.Map); isMap {
+					k, err := t.expr(x.Index)
+					if err != nil {
+						return "", false, err
+					}
+					return "(" + m + " " + k + ")", false, nil
+				}
+			}
+		}
+		// a bounds-checked slice read
+		if _, isSlice := t.p.Info.Types[x.X].Type.Underlying().(*types.Slice); isSlice {
+			xs, err := t.expr(x.X)
+			if err != nil {
+				return "", false, err
+			}
+			i, err := t.expr(x.Index)
+			if err != nil {
+				return "", false, err
+			}
+			return "(get_at " + xs + " " + i + ")", true, nil
+		}
+		return "", false, t.errf(e, "unsupported index expression")
 	case *ast.CallExpr:
 		if id, ok := x.Fun.(*ast.Ident); ok {
 			switch id.Name {
 			case "len":
 				v, err := t.expr(x.Args[0])
 				if err != nil {
-					return "", err
+					return "", false, err
 				}
-				return "(Z.of_nat (List.length " + v + "))", nil
+				return "(Z.of_nat (List.length " + v + "))", false, nil
 			case "append":
 				if len(x.Args) != 2 || x.Ellipsis != token.NoPos {
-					return "", t.errf(e, "unsupported append form")
+					return "", false, t.errf(e, "unsupported append form")
 				}
 				a, err := t.expr(x.Args[0])
 				if err != nil {
-					return "", err
+					return "", false, err
 				}
 				b, err := t.expr(x.Args[1])
 				if err != nil {
-					return "", err
+					return "", false, err
 				}
-				return "(" + a + " ++ [" + b + "])%list", nil
+				return "(" + a + " ++ [" + b + "])%list", false, nil
 			}
 		}
-		if sel, ok := x.Fun.(*ast.SelectorExpr); ok && len(x.Args) == 1 {
-			if tv, ok := t.p.Info.Types[sel.X]; ok && isTime(tv.Type) {
-				a, err := t.expr(sel.X)
-				if err != nil {
-					return "", err
-				}
-				b, err := t.expr(x.Args[0])
-				if err != nil {
-					return "", err
-				}
-				switch sel.Sel.Name {
-				case "Before":
-					return fmt.Sprintf("(Z.ltb %s %s)", a, b), nil
-				case "After":
-					return fmt.Sprintf("(Z.ltb %s %s)", b, a), nil
-				case "Equal":
-					return fmt.Sprintf("(Z.eqb %s %s)", a, b), nil
+		if sel, ok := x.Fun.(*ast.SelectorExpr); ok {
+			if len(x.Args) == 1 {
+				if tv, ok := t.p.Info.Types[sel.X]; ok && isTime(tv.Type) {
+					a, err := t.expr(sel.X)
+					if err != nil {
+						return "", false, err
+					}
+					b, err := t.expr(x.Args[0])
+					if err != nil {
+						return "", false, err
+					}
+					switch sel.Sel.Name {
+					case "Before":
+						return fmt.Sprintf("(Z.ltb %s %s)", a, b), false, nil
+					case "After":
+						return fmt.Sprintf("(Z.ltb %s %s)", b, a), false, nil
+					case "Equal":
+						return fmt.Sprintf("(Z.eqb %s %s)", a, b), false, nil
+					}
 				}
 			}
+			// configured calls: method on a named type of this package, or pkg.Func
+			key, recv := "", ast.Expr(nil)
+			if sl, ok := t.p.Info.Selections[sel]; ok && sl.Kind() == types.MethodVal {
+				key, recv = namedName(sl.Recv())+"."+sel.Sel.Name, sel.X
+			} else if id, ok := sel.X.(*ast.Ident); ok {
+				if _, isPkg := t.p.Info.Uses[id].(*types.PkgName); isPkg {
+					key = id.Name + "." + sel.Sel.Name
+				}
+			}
+			if cm, ok := t.cfg.Calls[key]; ok {
+				out := "(" + cm.Coq
+				if recv != nil {
+					v, err := t.expr(recv)
+					if err != nil {
+						return "", false, err
+					}
+					out += " " + v
+				}
+				for _, a := range x.Args {
+					v, err := t.expr(a)
+					if err != nil {
+						return "", false, err
+					}
+					out += " " + v
+				}
+				return out + ")", cm.Partial, nil
+			}
 		}
-		return "", t.errf(e, "unsupported call %s", t.src(x.Fun))
+		return "", false, t.errf(e, "unsupported call %s", t.src(x.Fun))
 	}
-	return "", t.errf(e, "unsupported expression %T", e)
+	return "", false, t.errf(e, "unsupported expression %T", e)
 }
 
 func (t *LT) composite(cl *ast.CompositeLit) (string, error) {
@@ -382,13 +515,46 @@ func (t *LT) composite(cl *ast.CompositeLit) (string, error) {
 	return out + ")", nil
 }
 
-// kont says what a statement list evaluates to when it falls off its end / hits `continue`.
+// kont says what a statement list evaluates to when it falls off its end / hits `continue`,
+// and how a returned value is packaged at this nesting level (inside a loop_fold body a return
+// is LRet).
 type kont struct {
 	fall string // "" = falling through is an error
 	cont string // "" = continue not allowed here
+	ret  func(string) string
+}
+
+func (t *LT) retTerm(k kont, v string) string {
+	w := t.fn.RetWrap
+	if w == "" {
+		w = "%s"
+	}
+	return k.ret(fmt.Sprintf(w, v))
+}
+
+func (t *LT) panicTerm(k kont, n ast.Node) (string, error) {
+	if t.fn.Panic == "" {
+		return "", t.errf(n, "expression may panic but the function has no Panic term")
+	}
+	return k.ret(t.fn.Panic), nil
+}
+
+// withValue evaluates a possibly panicking term and passes its value (bound to name) on.
+func (t *LT) withValue(k kont, n ast.Node, term string, partial bool, name string, rest string) (string, error) {
+	if !partial {
+		return fmt.Sprintf("let %s := %s in\n  %s", name, term, rest), nil
+	}
+	pn, err := t.panicTerm(k, n)
+	if err != nil {
+		return "", err
+	}
+	return fmt.Sprintf("match %s with\n  | Some %s => %s\n  | None => %s\n  end", term, name, rest, pn), nil
 }
 
 func tuple(vars []string) string {
+	if len(vars) == 0 {
+		return "tt"
+	}
 	if len(vars) == 1 {
 		return vars[0]
 	}
@@ -406,6 +572,9 @@ func letTuple(vars []string, val, rest string) string {
 }
 
 func funTuple(vars []string, body string) string {
+	if len(vars) == 0 {
+		return fmt.Sprintf("(fun _ : unit => %s)", body)
+	}
 	if len(vars) == 1 {
 		return fmt.Sprintf("(fun %s => %s)", vars[0], body)
 	}
@@ -496,6 +665,17 @@ func (t *LT) bind(name string, pos token.Pos) string {
 	return v
 }
 
+func elseList(e ast.Stmt) []ast.Stmt {
+	switch x := e.(type) {
+	case nil:
+		return nil
+	case *ast.BlockStmt:
+		return x.List
+	default:
+		return []ast.Stmt{x}
+	}
+}
+
 func (t *LT) block(l []ast.Stmt, k kont) (string, error) {
 	if len(l) == 0 {
 		if k.fall == "" {
@@ -512,10 +692,17 @@ func (t *LT) block(l []ast.Stmt, k kont) (string, error) {
 		}
 		key := strings.Join(parts, ", ")
 		if v, ok := t.fn.Returns[key]; ok {
-			return v, nil
+			return k.ret(v), nil
 		}
 		if len(s.Results) == 1 {
-			return t.expr(s.Results[0])
+			v, partial, err := t.exprP(s.Results[0])
+			if err != nil {
+				return "", err
+			}
+			if !partial {
+				return t.retTerm(k, v), nil
+			}
+			return t.withValue(k, s, v, true, "r_", t.retTerm(k, "r_"))
 		}
 		return "", t.errf(s, "no rendering for return %q", key)
 	case *ast.BranchStmt:
@@ -546,6 +733,8 @@ func (t *LT) block(l []ast.Stmt, k kont) (string, error) {
 					zero = "(@nil " + strings.TrimSuffix(strings.TrimPrefix(ct, "(list "), ")") + ")"
 				case ct == "bool":
 					zero = "false"
+				case ct == "string":
+					zero = "\"\""
 				case ct != "Z":
 					return "", t.errf(s, "no zero value for %s", ct)
 				}
@@ -555,87 +744,123 @@ func (t *LT) block(l []ast.Stmt, k kont) (string, error) {
 		r, err := rest()
 		return out + r, err
 	case *ast.AssignStmt:
-		return t.assign(s, rest)
+		return t.assign(s, k, rest)
 	case *ast.IfStmt:
-		if s.Else != nil {
-			return "", t.errf(s, "else branches are not supported")
-		}
-		pre := ""
-		if s.Init != nil {
-			as, ok := s.Init.(*ast.AssignStmt)
-			if !ok || as.Tok != token.DEFINE || len(as.Lhs) != 1 || len(as.Rhs) != 1 {
-				return "", t.errf(s, "unsupported if initialiser")
-			}
-			v, err := t.expr(as.Rhs[0])
-			if err != nil {
-				return "", err
-			}
-			id := as.Lhs[0].(*ast.Ident)
-			pre = fmt.Sprintf("let %s := %s in\n  ", t.bind(id.Name, id.Pos()), v)
-		}
-		c, err := t.expr(s.Cond)
-		if err != nil {
-			return "", err
-		}
-		if terminates(s.Body.List) {
-			a, err := t.block(s.Body.List, k)
-			if err != nil {
-				return "", err
-			}
-			b, err := rest()
-			if err != nil {
-				return "", err
-			}
-			return fmt.Sprintf("%s(if %s then %s\n   else %s)", pre, c, a, b), nil
-		}
-		sv := t.assigned(s.Body.List)
-		if len(sv) == 0 {
-			return "", t.errf(s, "if body without effect")
-		}
-		t.nK++
-		kn := fmt.Sprintf("K%d", t.nK)
-		call := kn + " " + tuple(sv)
-		a, err := t.block(s.Body.List, kont{fall: call, cont: k.cont})
-		if err != nil {
-			return "", err
-		}
-		b, err := rest()
-		if err != nil {
-			return "", err
-		}
-		return fmt.Sprintf("%slet %s := %s in\n  (if %s then %s\n   else %s)", pre, kn, funTuple(sv, b), c, a, call), nil
+		return t.ifStmt(s, l[1:], k)
 	case *ast.RangeStmt:
-		if s.Tok != token.DEFINE {
-			return "", t.errf(s, "range without :=")
+		return t.rangeStmt(s, k, rest)
+	}
+	return "", t.errf(l[0], "unsupported statement %T", l[0])
+}
+
+func (t *LT) ifStmt(s *ast.IfStmt, after []ast.Stmt, k kont) (string, error) {
+	// if [init;] C { A } [else E] ; after
+	wrapInit := func(body string) (string, error) { return body, nil }
+	if s.Init != nil {
+		as, ok := s.Init.(*ast.AssignStmt)
+		if !ok || as.Tok != token.DEFINE || len(as.Lhs) != 1 || len(as.Rhs) != 1 {
+			return "", t.errf(s, "unsupported if initialiser")
 		}
-		xs, err := t.expr(s.X)
+		v, partial, err := t.exprP(as.Rhs[0])
 		if err != nil {
 			return "", err
 		}
-		sv := t.assigned(s.Body.List)
+		id := as.Lhs[0].(*ast.Ident)
+		name := t.bind(id.Name, id.Pos())
+		wrapInit = func(body string) (string, error) { return t.withValue(k, s, v, partial, name, body) }
+	}
+	c, cpartial, err := t.exprP(s.Cond)
+	if err != nil {
+		return "", err
+	}
+	ite := func(a, b string) (string, error) {
+		if !cpartial {
+			return fmt.Sprintf("(if %s then %s\n   else %s)", c, a, b), nil
+		}
+		pn, err := t.panicTerm(k, s)
+		if err != nil {
+			return "", err
+		}
+		return fmt.Sprintf("match %s with\n  | Some true => %s\n  | Some false => %s\n  | None => %s\n  end", c, a, b, pn), nil
+	}
+	el := elseList(s.Else)
+	if terminates(s.Body.List) {
+		// the statements after the if are reached through the else branch only
+		a, err := t.block(s.Body.List, k)
+		if err != nil {
+			return "", err
+		}
+		b, err := t.block(append(append([]ast.Stmt{}, el...), after...), k)
+		if err != nil {
+			return "", err
+		}
+		out, err := ite(a, b)
+		if err != nil {
+			return "", err
+		}
+		return wrapInit(out)
+	}
+	sv := t.assigned(append(append([]ast.Stmt{}, s.Body.List...), el...))
+	t.nK++
+	kn := fmt.Sprintf("K%d", t.nK)
+	call := kn + " " + tuple(sv)
+	inner := kont{fall: call, cont: k.cont, ret: k.ret}
+	a, err := t.block(s.Body.List, inner)
+	if err != nil {
+		return "", err
+	}
+	b := call
+	if len(el) > 0 {
+		if b, err = t.block(el, inner); err != nil {
+			return "", err
+		}
+	}
+	r, err := t.block(after, k)
+	if err != nil {
+		return "", err
+	}
+	body, err := ite(a, b)
+	if err != nil {
+		return "", err
+	}
+	out, err := wrapInit(body)
+	if err != nil {
+		return "", err
+	}
+	return fmt.Sprintf("let %s := %s in\n  %s", kn, funTuple(sv, r), out), nil
+}
+
+func (t *LT) rangeStmt(s *ast.RangeStmt, k kont, rest func() (string, error)) (string, error) {
+	if s.Tok != token.DEFINE {
+		return "", t.errf(s, "range without :=")
+	}
+	xs, err := t.expr(s.X)
+	if err != nil {
+		return "", err
+	}
+	sv := t.assigned(s.Body.List)
+	val, ok := s.Value.(*ast.Ident)
+	if !ok {
+		return "", t.errf(s, "range without value variable")
+	}
+	xv := t.bind(val.Name, val.Pos())
+	idx := ""
+	if key, ok := s.Key.(*ast.Ident); ok && key.Name != "_" {
+		idx = t.bind(key.Name, key.Pos())
+	}
+	hasReturn := false
+	ast.Inspect(s.Body, func(n ast.Node) bool {
+		if _, ok := n.(*ast.ReturnStmt); ok {
+			hasReturn = true
+		}
+		return true
+	})
+	if !hasReturn && !t.fn.Partial {
+		// plain fold over the state tuple
 		if len(sv) == 0 {
 			return "", t.errf(s, "loop without state")
 		}
-		val, ok := s.Value.(*ast.Ident)
-		if !ok {
-			return "", t.errf(s, "range without value variable")
-		}
-		xv := t.bind(val.Name, val.Pos())
-		idx := ""
-		if key, ok := s.Key.(*ast.Ident); ok && key.Name != "_" {
-			idx = t.bind(key.Name, key.Pos())
-		}
-		hasReturn := false
-		ast.Inspect(s.Body, func(n ast.Node) bool {
-			if _, ok := n.(*ast.ReturnStmt); ok {
-				hasReturn = true
-			}
-			return true
-		})
-		if hasReturn {
-			return "", t.errf(s, "return inside a loop is not supported")
-		}
-		body, err := t.block(s.Body.List, kont{fall: tuple(sv), cont: tuple(sv)})
+		body, err := t.block(s.Body.List, kont{fall: tuple(sv), cont: tuple(sv), ret: k.ret})
 		if err != nil {
 			return "", err
 		}
@@ -652,10 +877,43 @@ func (t *LT) block(l []ast.Stmt, k kont) (string, error) {
 			letTuple(all, "st", letTuple(sv, "("+body+")", tuple(append([]string{"(Z.add " + idx + " 1)"}, sv...)))))
 		return letTuple(all, fmt.Sprintf("fold_left %s %s %s", step, xs, tuple(append([]string{"0"}, sv...))), r), nil
 	}
-	return "", t.errf(l[0], "unsupported statement %T", l[0])
+	// loop_fold: the body yields LNext state | LRet result
+	all := sv
+	next := tuple(sv)
+	init := tuple(sv)
+	if idx != "" {
+		all = append([]string{idx}, sv...)
+		next = tuple(append([]string{"(Z.add " + idx + " 1)"}, sv...))
+		init = tuple(append([]string{"0"}, sv...))
+	}
+	inner := kont{fall: "(LNext " + next + ")", cont: "(LNext " + next + ")",
+		ret: func(v string) string { return "(LRet " + k.ret(v) + ")" }}
+	body, err := t.block(s.Body.List, inner)
+	if err != nil {
+		return "", err
+	}
+	r, err := rest()
+	if err != nil {
+		return "", err
+	}
+	step := fmt.Sprintf("(fun st %s => %s)", xv, letTuple(all, "st", body))
+	if len(all) == 0 {
+		step = fmt.Sprintf("(fun (_ : unit) %s => %s)", xv, body)
+	}
+	pat := tuple(all)
+	if len(all) == 0 {
+		pat = "_"
+	} else if len(all) > 1 {
+		pat = "(" + strings.Join(all, ", ") + ")"
+	}
+	lhs := "LNext " + pat
+	if len(all) > 1 {
+		lhs = "LNext " + pat
+	}
+	return fmt.Sprintf("match loop_fold %s %s %s with\n  | LRet r_ => r_\n  | %s => %s\n  end", step, xs, init, lhs, r), nil
 }
 
-func (t *LT) assign(s *ast.AssignStmt, rest func() (string, error)) (string, error) {
+func (t *LT) assign(s *ast.AssignStmt, k kont, rest func() (string, error)) (string, error) {
 	// a, b := <atom>
 	if len(s.Lhs) > 1 && len(s.Rhs) == 1 {
 		a, ok := t.fn.Atoms[t.src(s.Rhs[0])]
@@ -711,9 +969,35 @@ func (t *LT) assign(s *ast.AssignStmt, rest func() (string, error)) (string, err
 	default:
 		return "", t.errf(s, "unsupported assignment operator %s", s.Tok)
 	}
-	val, err := t.expr(rhs)
+	val, vpartial, err := t.exprP(rhs)
 	if err != nil {
 		return "", err
+	}
+	if id, ok := lhs.(*ast.Ident); ok && op == 0 && vpartial {
+		v := t.bind(id.Name, id.Pos())
+		r, err := rest()
+		if err != nil {
+			return "", err
+		}
+		return t.withValue(k, s, val, true, v, r)
+	}
+	if vpartial {
+		return "", t.errf(s, "a panicking expression is only supported in x := E")
+	}
+	// m[k] = v on a map variable
+	if ix, ok := lhs.(*ast.IndexExpr); ok && op == 0 && t.cfg.MapSet != "" {
+		if _, isMap := t.p.Info.Types[ix.X].Type.Underlying().(*types.Map); isMap {
+			m, err := t.expr(ix.X)
+			if err != nil {
+				return "", err
+			}
+			key, err := t.expr(ix.Index)
+			if err != nil {
+				return "", err
+			}
+			r, err := rest()
+			return fmt.Sprintf("let %s := (%s %s %s %s) in\n  %s", m, t.cfg.MapSet, m, key, val, r), err
+		}
 	}
 	switch l := lhs.(type) {
 	case *ast.Ident:
@@ -849,7 +1133,7 @@ func TranslateLoopFunc(p *Pkg, cfg *LCfg, fn *LFunc) (string, error) {
 			binders = append(binders, fmt.Sprintf("(a_%s : %s)", n.Name, ct))
 		}
 	}
-	body, err := t.block(fd.Body.List, kont{})
+	body, err := t.block(fd.Body.List, kont{ret: func(v string) string { return v }})
 	if err != nil {
 		return "", fmt.Errorf("%s: %v", fn.Key, err)
 	}
